@@ -31,6 +31,7 @@ type mdoc struct {
 	K1 []int `json:"k1"`
 	T1 []int `json:"t1"`
 	N3 []int `json:"n3"` // only ever used by nested metrics of the range aggregations
+	K2 []int `json:"k2"` // single-valued keyword (generated trees only)
 }
 
 func nn(x []int) []int {
@@ -59,6 +60,7 @@ func main() {
 		ncorp, nset = 5000, 12
 	}
 	kterms := []sq.Term{{1}, {1, 2}, {2}, {2, 1}, {3}}
+	treeTerms = kterms
 	for ci := 0; ci < ncorp; ci++ {
 		nd := 1 + r.Intn(14)
 		c := sq.RandCorpus(r, nd, 1+r.Intn(3), false)
@@ -98,7 +100,12 @@ func main() {
 					d.N["n3"] = []int{x}
 					m.N3 = []int{x}
 				}
-				m.N1, m.N2, m.K1, m.T1, m.N3 = nn(m.N1), nn(m.N2), nn(m.K1), nn(m.T1), nn(m.N3)
+				if r.Intn(5) > 0 {
+					v := r.Intn(len(kterms))
+					d.K["k2"] = []sq.Term{kterms[v]}
+					m.K2 = []int{v + 1}
+				}
+				m.N1, m.N2, m.K1, m.T1, m.N3, m.K2 = nn(m.N1), nn(m.N2), nn(m.K1), nn(m.T1), nn(m.N3), nn(m.K2)
 				docs[d.ID] = m
 			}
 		}
@@ -122,7 +129,22 @@ func main() {
 			tsize := 1 + r.Intn(4)
 			bounds := [][2]int{{-3, 0}, {0, 2}, {2, 3}, {1, 6}, {5, 5}, {-2, -1}}
 			dbounds := [][2]int{{0, 60}, {60, 61}, {1, 3601}}
-			for si := 0; si < nset; si++ {
+			for si2 := 0; si2 < 2*nset; si2++ {
+				si, tree := si2/2, si2%2 == 1
+				if tree && si%2 == 1 && *tier != "thorough" {
+					continue // quick: a generated tree for every other setting
+				}
+				var treq []named
+				addAll := func(add func(string, search.Aggregation)) {
+					if !tree {
+						addAggs(add, tsize, bounds, dbounds)
+						return
+					}
+					treq = randRequest(r)
+					for _, na := range treq {
+						add(na.Name, na.A.real())
+					}
+				}
 				n := []int{0, 0, 1, 2, 3, 10, 11, 50}[r.Intn(8)]
 				from := []int{0, 0, 1, 3, 12}[r.Intn(5)]
 				var req bluge.SearchRequest
@@ -146,7 +168,7 @@ func main() {
 				if si == 0 {
 					am := bluge.NewAllMatches(mk())
 					setting["collector"] = "all"
-					addAggs(func(name string, a search.Aggregation) { am.AddAggregation(name, a) }, tsize, bounds, dbounds)
+					addAll(func(name string, a search.Aggregation) { am.AddAggregation(name, a) })
 					req = am
 				} else {
 					top = mkTop()
@@ -163,11 +185,16 @@ func main() {
 						}
 						setting["sort"] = "_id"
 					}
-					addAggs(top.AddAggregation, tsize, bounds, dbounds)
+					addAll(func(name string, a search.Aggregation) { top.AddAggregation(name, a) })
 					req = top
 				}
 				it, err := rd.Search(context.Background(), req)
 				e := map[string]any{"ev": "agg", "docs": matched, "settings": setting, "err": ""}
+				if tree {
+					e["ev"] = "aggtree"
+					e["req"] = treq
+					e["res"] = []any{}
+				}
 				if err != nil {
 					e["err"] = err.Error()
 					e["aggs"] = map[string]any{}
@@ -177,6 +204,16 @@ func main() {
 				for m, _ := it.Next(); m != nil; m, _ = it.Next() {
 				}
 				b := it.Aggregations()
+				if tree {
+					res := []map[string]any{}
+					for _, na := range treq {
+						res = append(res, na.A.result(b, na.Name))
+					}
+					e["res"] = res
+					nq++
+					_ = enc.Encode(e)
+					continue
+				}
 				a := map[string]any{"tsize": tsize}
 				a["count"] = int(b.Metric("count"))
 				a["sum"] = int(math.Round(b.Metric("sum")))
